@@ -1065,9 +1065,10 @@ func (interp *Interpreter) cfg(root *node, sc *scope, importPath, pkgName string
 				n.typ = dest.typ
 				n.findex = dest.findex
 				n.level = dest.level
-			case n.anc.kind == returnStmt:
+			case n.anc.kind == returnStmt && len(n.anc.child) == 1:
 				// To avoid a copy in frame, if the result is to be returned, store it directly
-				// at the frame location reserved for output arguments.
+				// at the frame location reserved for output arguments. Not with several
+				// operands: a later one may still read the result variable.
 				n.findex = childPos(n)
 			default:
 				// Allocate a new location in frame, and store the result here.
@@ -2367,7 +2368,7 @@ func (interp *Interpreter) cfg(root *node, sc *scope, importPath, pkgName string
 				n.typ = dest.typ
 				n.findex = dest.findex
 				n.level = dest.level
-			case n.anc.kind == returnStmt:
+			case n.anc.kind == returnStmt && len(n.anc.child) == 1:
 				pos := childPos(n)
 				n.typ = sc.def.typ.ret[pos]
 				n.findex = pos
